@@ -7,6 +7,7 @@ an unknown value forks the path (bounded).  Calls are resolved by (1) caller-sup
 functions, (3) inlining the workspace body up to a depth bound; anything else yields Unknown.
 """
 import copy
+import re
 
 from .facts import AnalysisError
 
@@ -783,6 +784,21 @@ class Interp:
             if key is None and t.get("callee_key") in self.fx.fns:
                 key = t["callee_key"]
                 self_adt = inst
+        if key is None and t.get("callee_trait") and not t.get("resolved_key") and args and \
+                re.fullmatch(r"&?(mut )?[A-Z][A-Za-z0-9]*", t.get("callee_self") or "") and (t.get("callee_self") or "").lstrip("&mut ") not in ("Self",):
+            # a trait method called on a generic parameter (`T::shrink(x)` inside `impl<T: Tr> Tr for Vec<T>`): dispatch on the
+            # receiver *value* when it is a concrete ADT / vector with exactly one workspace impl of the trait
+            v0 = self.deref(args[0])
+            want = v0.path if isinstance(v0, Adt) and v0.path else ("alloc::vec::Vec" if isinstance(v0, Vec) else None)
+            if want:
+                cands = []
+                for imp in self.fx.impls:
+                    if imp.get("trait") == t["callee_trait"] and imp.get("self_adt") == want:
+                        for m in imp["methods"]:
+                            if m["name"] == t.get("callee_name") and m["key"] in self.fx.fns:
+                                cands.append(m["key"])
+                if len(set(cands)) == 1:
+                    key = cands[0]
         if key is None and t.get("callee_trait") and t.get("callee_self") == "Self" and getattr(fr, "self_adt", None):
             # inside a provided (default) trait method instantiated at a known Self: dispatch `Self::m` to that impl,
             # or to the trait's own provided method when the impl does not override it
